@@ -124,3 +124,79 @@ func anyGuard(fn *ssa.Function, target ssa.Instruction, alts ...an.Cmp) bool {
 }
 
 func has(s, sub string) bool { return strings.Contains(s, sub) }
+
+// condLoads returns the load instructions of the value with access path p
+// that feed condition v (through comparisons, negations and conversions).
+func condLoads(v ssa.Value, p string, depth int) []ssa.Instruction {
+	if v == nil || depth > 6 {
+		return nil
+	}
+	if in, ok := v.(ssa.Instruction); ok && an.Path(v) == p {
+		return []ssa.Instruction{in}
+	}
+	var out []ssa.Instruction
+	switch x := v.(type) {
+	case *ssa.BinOp:
+		out = append(out, condLoads(x.X, p, depth+1)...)
+		out = append(out, condLoads(x.Y, p, depth+1)...)
+	case *ssa.UnOp:
+		out = append(out, condLoads(x.X, p, depth+1)...)
+	case *ssa.Convert:
+		out = append(out, condLoads(x.X, p, depth+1)...)
+	case *ssa.ChangeType:
+		out = append(out, condLoads(x.X, p, depth+1)...)
+	case *ssa.Phi:
+		for _, e := range x.Edges {
+			out = append(out, condLoads(e, p, depth+1)...)
+		}
+	}
+	return out
+}
+
+// guardReadInSection decides a check-then-act obligation: target is guarded by
+// the fact want, and on every guarding edge that can lead to target the tested
+// value (want.L) was read in the critical section of lock that still holds at
+// target: no path from the read to target passes a release of lock. Returns
+// "" when it holds, else the reason.
+func guardReadInSection(fn *ssa.Function, target ssa.Instruction, want an.Cmp, lock string) string {
+	edges := an.EdgesImplying(fn, want)
+	if !an.Guarded(fn, target, edges) {
+		return "not guarded by " + want.String()
+	}
+	isT := func(in ssa.Instruction) bool { return in == target }
+	var releases []ssa.Instruction
+	an.Instrs(fn, func(in ssa.Instruction) {
+		if l, op := an.LockOpOf(in); l == lock && strings.HasPrefix(op, "-") {
+			releases = append(releases, in)
+		}
+	})
+	// the edges whose tested value was read in the section that still holds at target must
+	// guard target on their own (an earlier, stale test may exist besides them: double-checked locking)
+	var fresh []an.Edge
+	for _, e := range edges {
+		ifi, ok := e.From.Instrs[len(e.From.Instrs)-1].(*ssa.If)
+		if !ok {
+			continue
+		}
+		reads := condLoads(ifi.Cond, want.L, 0)
+		if len(reads) == 0 {
+			reads = []ssa.Instruction{ifi}
+		}
+		stale := false
+		for _, rd := range reads {
+			for _, r := range releases {
+				if an.ReachFrom(fn, rd, &an.Cut{Instrs: isT}, func(in ssa.Instruction) bool { return in == r }) != nil &&
+					an.ReachFrom(fn, r, &an.Cut{Instrs: func(in ssa.Instruction) bool { return in == rd }}, isT) != nil {
+					stale = true
+				}
+			}
+		}
+		if !stale {
+			fresh = append(fresh, e)
+		}
+	}
+	if !an.Guarded(fn, target, fresh) {
+		return "(the lock is released between the test of " + want.L + " and the action: stale check)"
+	}
+	return ""
+}
